@@ -21,6 +21,8 @@ EXPLANATION = (
     'broadcasting/indexing semantics themselves; WCS round-trip numerics.')
 EXPLANATION_ADDED = (" (R8) integer components: the arithmetic methods never multiply or square possibly-integer component arrays (C01.R9's dataflow).")
 EXPLANATION += EXPLANATION_ADDED
+EXPLANATION_ADDED2 = (" (R1 also) an operand that the broadcast expanded is stored as a copy: the array branch stores either a copy of the broadcast result or the result itself exactly when the input's own shape equals the broadcast shape — a zero-stride view would make all repeated elements one memory cell.")
+EXPLANATION += EXPLANATION_ADDED2
 TRUSTED = ['np.broadcast_arrays, ndarray indexing, zip, len', 'SkyCoord.from_pixel(xp, yp, wcs, origin, mode) / SkyCoord.to_pixel']
 ASSUMPTIONS = ['real arithmetic']
 
@@ -55,9 +57,42 @@ def r1(ctx):
     cy, sy, ay = parts(fy)
     bc = App('numpy.broadcast_arrays', (X, Y))
     wantx, wanty = App('getitem', (bc, sp.Integer(0))), App('getitem', (bc, sp.Integer(1)))
-    if not (same(ax, wantx) and same(ay, wanty)):
+    def is_copy_of(t, want):
+        # want.copy(), np.array(want), np.copy(want), copy.deepcopy(want)
+        if isinstance(t, App) and t.name in ('copy', 'numpy.array', 'numpy.copy', 'copy.deepcopy') and t.args and same(t.args[0], want):
+            return True
+        if isinstance(t, App) and t.name == 'apply' and t.args and isinstance(t.args[0], App) and t.args[0].name == 'attr:copy' \
+                and same(t.args[0].args[0], want):
+            return True
+        return False
+
+    def owns(t, want, inp):
+        """'value' when t is the broadcast result `want` by value on every path; also 'owned' when it is a copy wherever the
+        input `inp` was expanded (its shape differs from the broadcast shape); None when it is something else"""
+        if is_copy_of(t, want):
+            return 'owned'
+        if same(t, want):
+            return 'value'
+        if isinstance(t, Ite):
+            same_shape = Cmp('==', App('numpy.shape', (inp,)), App('attr:shape', (want,)))
+            c, a, b = t.cond, t.a, t.b
+            if isinstance(c, Cmp) and c.op == '!=':
+                c, a, b = Cmp('==', c.lhs, c.rhs), b, a
+            if isinstance(c, Cmp) and c.op == '==' and (same(c, same_shape) or same(Cmp('==', c.rhs, c.lhs), same_shape)) \
+                    and same(a, want) and is_copy_of(b, want):
+                return 'owned'
+        return None
+    ox, oy = owns(ax, wantx, X), owns(ay, wanty, Y)
+    if ox is None or oy is None:
         probs.append(f'array branch stores x={show(ax, 120)}, y={show(ay, 120)}; expected the two results of one '
-                     'np.broadcast_arrays(x, y) call in order')
+                     'np.broadcast_arrays(x, y) call in order (or copies of them)')
+    elif 'value' in (ox, oy):
+        which = 'x' if ox == 'value' else 'y'
+        ctx.bad('PixCoord.__init__', 'expanded-operand-shares-memory',
+                f'the array branch stores the result of np.broadcast_arrays for {which} as it is: an operand that the broadcast '
+                'expanded is a view with zero strides whose repeated elements are one memory cell, so PixCoord(5, [1, 2, 3]).x[0] = 9 '
+                'changes every element (and writes into the caller\'s array), unlike the same assignment on a copy(); an expanded '
+                'operand must be copied', init.loc())
     if cx is None or cy is None or not same(cx, cy):
         probs.append('no common scalar test for x and y')
     else:
